@@ -63,6 +63,8 @@ def parseOp (w : List String) : Option Op :=
   | ["closeUnder"] => some .closeUnder
   | ["collectUnder", x] => some (.collectUnder x)
   | ["unwind"] => some .unwind
+  | ["rootFrom", v, n, p, via] => do let n ← strOfHex n; pure (.rootFrom v n p (via == "tp"))
+  | ["rootFromLocal", v, n, via] => do let n ← strOfHex n; pure (.rootFromLocal v n (via == "tp"))
   | _ => none
 
 /-- canonical id text: `T<k>#<n>` for ids drawn by logical thread k, `0`, else `x<hex>` -/
